@@ -343,8 +343,8 @@ func runProtocol(kc *kernelCtx, blocks []*Block, only string, want map[string]bo
 		if on("C08") {
 			pc.p5Sync(s)
 		}
-		if on("C13") {
-			pc.p7Lockset(s)
+		if on("C13") || on("C05") || on("C16") {
+			pc.p7Lockset(s, on("C13"), on("C05") || on("C16"))
 		}
 	}
 	pc.curExtra = nil
